@@ -38,6 +38,7 @@ type JobSpec struct {
 	MaxPaths     int64                       `json:"max_paths"`
 	Bound        string                      `json:"bound"` // human-readable statement of the bound
 	Overrides    []string                    `json:"overrides"` // target=replacement, in addition to the harness files' //gosx:override lines
+	Models       []string                    `json:"models"`    // target=replacement for the symbolic run only: environment models (harness code) of functions that the native replay runs for real
 	PermuteMaps  bool                        `json:"permute_maps"`   // explore the iteration orders of maps with 2..4 entries (forked choices)
 	MapPermBudget int                        `json:"map_perm_budget"` // at most this many permutation choices per path (0 = all)
 	ExploreSched bool                        `json:"explore_sched"` // fork over every choice among several ready select cases (arrival orders of worker results)
@@ -196,7 +197,14 @@ func cmdCheck(args []string) int {
 			}
 		}
 		jobOverrides[js.Name] = jobOv
-		jr := runJob(p, &js, params, *workers, *solver, *paranoid, jobOv, *trace, *verbose)
+		runOv := append([][2]string(nil), jobOv...)
+		for _, o := range js.Models {
+			kv := strings.SplitN(o, "=", 2)
+			if len(kv) == 2 {
+				runOv = append(runOv, [2]string{strings.TrimSpace(kv[0]), strings.TrimSpace(kv[1])})
+			}
+		}
+		jr := runJob(p, &js, params, *workers, *solver, *paranoid, runOv, *trace, *verbose)
 		results = append(results, jr)
 		fmt.Printf("[%s/%s] paths=%d outcomes{%s} queries=%d solver=%.1fs quick=%d wall=%.1fs reach{%s}\n", *prop, js.Name, jr.Paths, outcomeString(jr.Outcomes), jr.Queries, jr.SolverS, jr.QuickDec, jr.WallS, outcomeString(jr.Reach))
 		problems = append(problems, jr.problems...)
